@@ -88,3 +88,14 @@ type VB struct {
 	A V4
 	B V7
 }
+
+// TErr is a concrete error type for functions that declare their error result as *TErr instead of error.
+// A nil *TErr stored in an error is a non-nil error (Go's typed-nil rule); Error is safe on it.
+type TErr struct{ Msg string }
+
+func (e *TErr) Error() string {
+	if e == nil {
+		return "<nil *vt.TErr>"
+	}
+	return e.Msg
+}
